@@ -97,7 +97,7 @@ def obligations(tier, seed):
                 stubs=["models/c04_gen.c: waveform tables T[i][<= 2 payload bits] derived from the real generator as a black box, cross-checked on 260 payloads"],
                 # the image array must be field sensitive so that the CRI search runs on the constant run-in samples
                 flags=["--max-field-sensitivity-array-size", str(2 * spl * bps + 1)],
-                grid=grid, quick_grid=quick_grid, reach=["end"], timeout=timeout, mem_gb=6, units=U, solver="cadical")
+                grid=grid, quick_grid=quick_grid, reach=["end"], timeout=timeout, mem_gb=3, units=U, solver="cadical")
         _WAVE_OBS.append(ob)
         return ob
 
